@@ -1,7 +1,7 @@
 /*UNIT
 {"props": ["C17", "C18"], "src": ["lib/hashtable.c"], "mode": "plain", "kind": "bounded",
  "bound": "8 buckets; key hashing to bucket 5 (anybucket: any); probed bucket holds <= 3 nodes (distinct keys of length 1..2, arbitrary bytes), <= 2 iterators parked per node, <= 2 global and <= 1 per-key notifiers; other buckets arbitrary (never accessed)",
- "unwind": 5, "functions": ["hashtable_get", "hashtable_lookup", "qb_hash_string", "hash_fnv"],
+ "unwind": 6, "unwindset": ["harness.0:25"], "functions": ["hashtable_get", "hashtable_lookup", "qb_hash_string", "hash_fnv"],
  "restrict_fp": ["hashtable_notify.function_pointer_call.1/verif_notify_cb", "hashtable_notify.function_pointer_call.2/verif_notify_cb",
                  "hashtable_notify.function_pointer_call.3/verif_notify_cb"],
  "stubs": ["map notifier callback (records event, key, old and new value per notifier)", "malloc/calloc (may fail)"],
@@ -18,12 +18,12 @@
  *  removed: k was removed while an iterator is parked on its node: get must report nothing (defect #15) */
 #include "ht_common.h"
 
-void harness(void)
+static void verif_case(unsigned nodes, unsigned gnot, unsigned nnot)
 {
 	verif_alloc_never_fails = 1;
 	char *k = verif_key_new();
 	uint32_t b = ht_probe_bucket(k);
-	struct hash_table *t = ht_build(k, b);
+	struct hash_table *t = ht_build(b, nodes, gnot, nnot);
 	int gi = ht_ghost_find(k);
 #ifdef V_REMOVED
 	ASSUME(gi >= 0 && HG[gi].present == 0);
@@ -53,4 +53,15 @@ void harness(void)
 	}
 	POST(verif_not_total == 0, "get calls no notifier");
 	ht_check_state(t);
+}
+
+void harness(void)
+{
+	VERIF_ND(uint8_t, nd_shape);
+	unsigned s;
+	for (s = 0; s < HT_SHAPES; s++) {
+		if (nd_shape == s) {
+			verif_case(HT_SHAPE_NODES(s), HT_SHAPE_GNOT(s), HT_SHAPE_NNOT(s));
+		}
+	}
 }
